@@ -96,3 +96,83 @@ Qed.
 
 Lemma Rlist_max_plus c l : l <> [] -> Rlist_max (map (fun y => y + c) l) = Rlist_max l + c.
 Proof. destruct l as [|x l]; [contradiction|]. intros _. simpl. apply Rlist_max1_plus. Qed.
+
+(* sum of exponentials *)
+Definition sumexp (xs : list R) : R := Rlist_sum (map exp xs).
+
+Lemma sumexp_pos xs : xs <> [] -> 0 < sumexp xs.
+Proof. intros H. apply Rlist_sum_pos; [exact H|]. intros x _. apply exp_pos. Qed.
+
+Lemma shifted_sum xs s dV :
+  Rlist_sum (map (fun x => exp (x + s) * dV) xs) = exp s * dV * sumexp xs.
+Proof.
+  unfold sumexp. induction xs as [|x xs IH]; simpl; [ring|].
+  rewrite IH, exp_plus. ring.
+Qed.
+
+Lemma sumexp_shift xs c : sumexp (map (fun x => x + c) xs) = exp c * sumexp xs.
+Proof.
+  unfold sumexp. induction xs as [|x xs IH]; simpl; [ring|]. rewrite IH, exp_plus. ring.
+Qed.
+
+
+(* linearity and monotonicity of mapped sums *)
+Lemma Rlist_sum_map_plus (A : Type) (f g : A -> R) l :
+  Rlist_sum (map (fun x => f x + g x) l) = Rlist_sum (map f l) + Rlist_sum (map g l).
+Proof. induction l as [|x l IH]; simpl; [lra|rewrite IH; lra]. Qed.
+
+Lemma Rlist_sum_map_scal (A : Type) (f : A -> R) c l :
+  Rlist_sum (map (fun x => c * f x) l) = c * Rlist_sum (map f l).
+Proof. induction l as [|x l IH]; simpl; [lra|rewrite IH; lra]. Qed.
+
+Lemma Rlist_sum_map_const (A : Type) c (l : list A) :
+  Rlist_sum (map (fun _ => c) l) = INR (length l) * c.
+Proof.
+  induction l as [|x l IH]; [simpl; lra|]. change (length (x :: l)) with (S (length l)).
+  rewrite S_INR. simpl. rewrite IH. lra.
+Qed.
+
+Lemma Rlist_sum_map_le (A : Type) (f g : A -> R) l :
+  (forall x, In x l -> f x <= g x) -> Rlist_sum (map f l) <= Rlist_sum (map g l).
+Proof.
+  induction l as [|x l IH]; intros H; simpl; [lra|].
+  assert (f x <= g x) by (apply H; left; reflexivity).
+  assert (Rlist_sum (map f l) <= Rlist_sum (map g l)) by (apply IH; intros y Hy; apply H; right; exact Hy).
+  lra.
+Qed.
+
+Lemma Rlist_sum_map_id l : Rlist_sum (map (fun x : R => x) l) = Rlist_sum l.
+Proof. rewrite map_id. reflexivity. Qed.
+
+(* ln x <= x - 1 *)
+Lemma ln_le_sub1 x : 0 < x -> ln x <= x - 1.
+Proof.
+  intros Hx. destruct (Req_dec (ln x) 0) as [E|E].
+  - rewrite E. assert (x = 1). { rewrite <- (exp_ln x Hx), E. apply exp_0. } lra.
+  - pose proof (exp_ineq1 (ln x) E) as H. rewrite exp_ln in H by exact Hx. lra.
+Qed.
+
+(* entropy bound (Gibbs against the uniform distribution): for positive weights summing to one,
+   sum w ln w >= - ln (number of weights) *)
+Lemma gibbs_uniform ws : ws <> [] -> (forall w, In w ws -> 0 < w) -> Rlist_sum ws = 1 ->
+  - ln (INR (length ws)) <= Rlist_sum (map (fun w => w * ln w) ws).
+Proof.
+  intros Hne Hpos Hsum.
+  set (k := INR (length ws)).
+  assert (Hk : 0 < k).
+  { subst k. destruct ws; [contradiction|]. apply lt_0_INR. simpl. apply Nat.lt_0_succ. }
+  assert (H : Rlist_sum (map (fun w => - (w * ln k) - (/ k - w)) ws) <= Rlist_sum (map (fun w => w * ln w) ws)).
+  { apply Rlist_sum_map_le. intros w Hw. specialize (Hpos w Hw).
+    assert (Hkw : 0 < / (k * w)) by (apply Rinv_0_lt_compat, Rmult_lt_0_compat; assumption).
+    pose proof (ln_le_sub1 (/ (k * w)) Hkw) as Hl.
+    rewrite ln_Rinv in Hl by (apply Rmult_lt_0_compat; assumption).
+    rewrite ln_mult in Hl by assumption.
+    assert (E : w * / (k * w) = / k) by (field; lra).
+    assert (w * (- (ln k + ln w)) <= w * (/ (k * w) - 1)) by (apply Rmult_le_compat_l; lra).
+    nra. }
+  assert (E : Rlist_sum (map (fun w => - (w * ln k) - (/ k - w)) ws) = - ln k).
+  { rewrite (Rlist_sum_map_ext R _ (fun w => (1 - ln k) * w + - / k)) by (intros; ring).
+    rewrite Rlist_sum_map_plus, Rlist_sum_map_scal, Rlist_sum_map_id, Rlist_sum_map_const, Hsum.
+    fold k. field. lra. }
+  lra.
+Qed.
